@@ -366,10 +366,34 @@ def inline_unknown_helpers(trees: Dict[str, ast.Module], known: Optional[set] = 
 
         current_caller: List[Optional[ast.FunctionDef]] = [None]
 
+        def owner_of(mod: str, cls: str, meth: str, depth: int = 0):
+            """qualified name of the method as found on the class or, failing that, on its base classes (left to right, by name,
+            in this module or imported from another module of the package); a definition on the way shadows what lies beyond"""
+            q = f"{mod}.{cls}.{meth}"
+            if q in funcs:
+                return q
+            if depth > 6:
+                return None
+            cdef = next((b for b in trees[mod].body if isinstance(b, ast.ClassDef) and b.name == cls), None) if mod in trees else None
+            if cdef is None:
+                return None
+            for b in cdef.bases:
+                bn = b.id if isinstance(b, ast.Name) else None
+                if bn is None:
+                    continue
+                if any(isinstance(x, ast.ClassDef) and x.name == bn for x in trees[mod].body):
+                    r_ = owner_of(mod, bn, meth, depth + 1)
+                else:
+                    tgt = imports[mod].get(bn)
+                    r_ = owner_of(tgt.rsplit(".", 1)[0], tgt.rsplit(".", 1)[1], meth, depth + 1) if tgt and "." in tgt else None
+                if r_ is not None:
+                    return r_
+            return None
+
         def resolve(mod: str, cls: Optional[str], call: ast.Call):
             f = call.func
             if isinstance(f, ast.Attribute) and isinstance(f.value, ast.Name) and f.value.id == "self" and cls:
-                q = f"{mod}.{cls}.{f.attr}"
+                q = owner_of(mod, cls, f.attr)
                 return (q, True) if q in cand else None
             if isinstance(f, ast.Name) and f.id in closure_map.get(id(current_caller[0]), {}):
                 return closure_map[id(current_caller[0])][f.id], "closure"
